@@ -5,6 +5,7 @@ From Coq Require Import List NArith Bool Lia.
 From Verif Require Import Common.Util Bft.Tree Bft.Model Bft.Quorum Bft.ProofsTally Bft.ProofsChain Bft.ProofsSearch
   Bft.ProofsNode Bft.Safety Bft.ProofsWitness Bft.ProofsCommit Bft.ProofsOrder Bft.ProofsOrder2 Bft.ProofsOrder3 Bft.ProofsOrder4
   Bft.ProofsLive Bft.ProofsVote Bft.ProofsJustified.
+From Verif Require Compose.SyncOrder.
 Import ListNotations.
 Open Scope N_scope.
 
@@ -228,6 +229,52 @@ Example search_example : (* qualities 1,2,2,3 per epoch, committed epoch has qua
   bsearch 5 (fun i => Ok (2 <=? nth (N.to_nat i) [1;2;2;3] 0)) 0 4 = Ok 1.
 Proof. vm_compute. reflexivity. Qed.
 
+(* ------------------------------------------------------------------ composition *)
+
+(* C04 <-> C19 (Compose/SyncOrder.v).  The total order of best_is_max is a strict weak order on ALL blocks (no distinct-id
+   hypothesis: two blocks are incomparable only if they carry the same id), it is bft.Select on the block about to be
+   imported, and the node invariant gives the premise "best is maximal in the store" of C19's sync_converges for the Sync
+   view of the node (ids of the repository, best id; order read in any well-formed tree U that contains the repository -
+   chains and qualities of stored blocks are the same in the repository and in U).  Together these discharge the order
+   hypotheses of sync_converges (Properties/C19.v sync_converges_bft_order). *)
+Theorem beats_strict_weak_order c r :
+  (forall x y, beats c r x y = true -> beats c r y x = false) /\
+  (forall x y z, beats c r x z = true -> beats c r x y = true \/ beats c r y z = true) /\
+  (forall x y, beats c r x y = false -> beats c r y x = false -> b_id x = b_id y).
+Proof. exact (Compose.SyncOrder.beats_strict_weak_order c r). Qed.
+
+Theorem select_is_the_order c U nd b p : 0 < c_L c -> inv c nd -> wf_repo U ->
+  (forall x, In x (b :: n_repo nd) -> In x U) ->
+  known (n_repo nd) (b_id b) = false -> find_blk (n_repo nd) (b_parent b) = Some p -> b_num b = b_num p + 1 ->
+  select c (n_repo nd) (n_eng nd) (best_blk nd) b = Compose.SyncOrder.sbetter c U (b_id b) (n_best nd).
+Proof. exact (Compose.SyncOrder.select_is_sbetter c U nd b p). Qed.
+
+Theorem quality_stable_under_growth c r1 r2 x : wf_repo r1 -> wf_repo r2 -> (forall y, In y r1 -> In y r2) -> In x r1 ->
+  chain_of r2 (b_id x) = chain_of r1 (b_id x) /\ qual c r2 x = qual c r1 x.
+Proof.
+  intros W1 W2 Hs Hx.
+  exact (conj (Compose.SyncOrder.chain_of_sub_stored r1 r2 x W1 W2 Hs Hx) (Compose.SyncOrder.qual_sub c r1 r2 x W1 W2 Hs Hx)).
+Qed.
+
+Theorem best_is_max_gives_sync_best_max c U nd : inv c nd -> wf_repo U -> (forall x, In x (n_repo nd) -> In x U) ->
+  Sync.ProofsDownload.best_max N (Compose.SyncOrder.sbetter c U) (Compose.SyncOrder.sync_node nd).
+Proof. exact (Compose.SyncOrder.inv_gives_best_max c U nd). Qed.
+
+(* non-vacuity: the node of Compose/SyncOrder.v's fork (local branch of higher total score, other branch of higher quality) *)
+Example best_is_max_gives_sync_best_max_example :
+  inv Compose.SyncOrder.ex_cfg Compose.SyncOrder.ex_nd /\ wf_repo Compose.SyncOrder.ex_U /\
+  (forall x, In x (n_repo Compose.SyncOrder.ex_nd) -> In x Compose.SyncOrder.ex_U) /\
+  n_best Compose.SyncOrder.ex_nd = b_id Compose.SyncOrder.ex_l5 /\
+  Compose.SyncOrder.sbetter Compose.SyncOrder.ex_cfg Compose.SyncOrder.ex_U (b_id (Compose.SyncOrder.ex_m 7)) (n_best Compose.SyncOrder.ex_nd) = true /\
+  select Compose.SyncOrder.ex_cfg (n_repo Compose.SyncOrder.ex_nd) (n_eng Compose.SyncOrder.ex_nd) (best_blk Compose.SyncOrder.ex_nd)
+         (Compose.SyncOrder.ex_m 4)
+    = Compose.SyncOrder.sbetter Compose.SyncOrder.ex_cfg Compose.SyncOrder.ex_U (b_id (Compose.SyncOrder.ex_m 4)) (n_best Compose.SyncOrder.ex_nd).
+Proof.
+  split; [exact Compose.SyncOrder.ex_inv|]. split; [exact Compose.SyncOrder.ex_wf|]. split; [exact Compose.SyncOrder.ex_incl|].
+  split; [exact (proj1 Compose.SyncOrder.ex_wins_by_quality)|].
+  split; [exact (proj2 (proj2 (proj2 (proj2 Compose.SyncOrder.ex_wins_by_quality)))) | exact Compose.SyncOrder.select_is_sbetter_example].
+Qed.
+
 Print Assumptions tally_order_independent.
 Print Assumptions incremental_eq_scratch.
 Print Assumptions import_history_invariants.
@@ -251,3 +298,8 @@ Print Assumptions accepted_block_imports_without_error.
 Print Assumptions commit_block_error_refuted.
 Print Assumptions commit_block_total_partial.
 Print Assumptions committed_implies_justified.
+Print Assumptions beats_strict_weak_order.
+Print Assumptions select_is_the_order.
+Print Assumptions quality_stable_under_growth.
+Print Assumptions best_is_max_gives_sync_best_max.
+Print Assumptions best_is_max_gives_sync_best_max_example.
